@@ -8,6 +8,8 @@ mod debug;
 mod extend;
 mod layout;
 mod mangle;
+#[cfg(capy_verif)]
+pub mod verif;
 
 #[cfg(test)]
 mod tests;
